@@ -104,3 +104,26 @@ package proposal
 //@   trusted
 //@   pure
 //@   ensures r == propIDOf(targetID, index)
+
+// C15, write half: the store implementation over the atomix primitive. Every update is conditional on
+// the version the caller read (guards of the assumed contracts in /verif/contracts/lib/atomix.spec),
+// versions and revisions only grow, a record that was never read cannot be written, and the write
+// goes to the record's own key.
+//@ func (*proposalStore).Update(s, ctx, proposal) (err)
+//@   props C15
+//@   requires s != nil && s.proposals != nil && proposal != nil
+//@   ensures {C15} version-and-revision-grow: err == nil ==> proposal.Version > old(proposal.Version) && proposal.Revision == old(proposal.Revision) + 1
+//@   ensures {C15} unread-record-refused: old(proposal.Version) == 0 || old(proposal.Revision) == 0 ==> err != nil && condWrites == old(condWrites)
+//@   ensures {C15} one-conditional-write-to-own-key: condWrites <= old(condWrites) + 1 && inserts == old(inserts) && (condWrites > old(condWrites) ==> lastWriteKey == proposal.ID) && (err == nil ==> condWrites == old(condWrites) + 1)
+//@ func (*proposalStore).UpdateStatus(s, ctx, proposal) (err)
+//@   props C15
+//@   requires s != nil && s.proposals != nil && proposal != nil
+//@   ensures {C15} version-grows-revision-kept: err == nil ==> proposal.Version > old(proposal.Version) && proposal.Revision == old(proposal.Revision)
+//@   ensures {C15} unread-record-refused: old(proposal.Version) == 0 || old(proposal.Revision) == 0 ==> err != nil && condWrites == old(condWrites)
+//@   ensures {C15} one-conditional-write-to-own-key: condWrites <= old(condWrites) + 1 && inserts == old(inserts) && (condWrites > old(condWrites) ==> lastWriteKey == proposal.ID) && (err == nil ==> condWrites == old(condWrites) + 1)
+//@ func (*proposalStore).Create(s, ctx, proposal) (err)
+//@   props C15
+//@   requires s != nil && s.proposals != nil && proposal != nil
+//@   ensures {C15} only-new-records-are-created: old(proposal.Version) != 0 || old(proposal.Revision) != 0 ==> err != nil && inserts == old(inserts)
+//@   ensures {C15} created-record-is-versioned: err == nil ==> proposal.Revision == 1 && proposal.Version > 0 && inserts == old(inserts) + 1 && lastWriteKey == proposal.ID
+//@   ensures {C15} create-never-overwrites: condWrites == old(condWrites) && inserts <= old(inserts) + 1
